@@ -114,3 +114,62 @@ def lost_iterations(f, p1):
                     continue
                 out.append((k, loads[k][0], i, h))
     return out
+
+
+def stale_state_copy(f, p1):
+    """A frame region that is filled *before* a block loop with data loaded through a pointer argument (a private copy
+    of the chaining state), that is read inside the loop, but that the loop never writes - while the loop does store
+    through that argument: the loop keeps chaining from the copy it never updates, so every block starts from the
+    state of the call's first block.  Returns [(arg register, (lo, hi) of the frame region, load ins in the loop)]."""
+    from x86 import vec_of
+    out = []
+    loops = natural_loops(f)
+    if not loops:
+        return out
+    inloop = set()
+    for (h, body) in loops:
+        inloop |= body
+    # copy-in: within one block outside the loops, a vector register loaded through an argument and stored to the frame
+    regions = {}          # arg -> [ (frame id, lo, hi) ]
+    for b, bl in f.blocks.items():
+        if b in inloop:
+            continue
+        src = {}
+        for i in bl:
+            m = p1.maddr.get(i.addr) if i.mem >= 0 else None
+            defs = [vec_of(d) for d in i.explicit_defs() if vec_of(d) is not None]
+            if m and i.reads_mem_operand() and not i.writes_mem_operand() and m[0][0] == "init" and not m[1] and defs and i.op.upper().lstrip("V").startswith(("MOVUPS", "MOVDQU", "MOVDQA", "MOVAPS", "LDDQU")):
+                src[defs[0]] = m[0][1]
+                continue
+            if m and i.writes_mem_operand() and m[0][0] == "fr" and not m[1] and i.mem + 5 < len(i.ops) and i.ops[i.mem + 5][0] == "r":
+                v = vec_of(i.ops[i.mem + 5][1])
+                if v is not None and v in src:
+                    regions.setdefault(src[v], []).append((m[0][1], m[0][2], m[0][2] + (i.memsize() or 16)))
+            for d in defs:
+                src.pop(d, None)
+    for arg, regs in regions.items():
+        fid = regs[0][0]
+        lo = min(r[1] for r in regs if r[0] == fid)
+        hi = max(r[2] for r in regs if r[0] == fid)
+        if hi - lo < 64:
+            continue
+        for (h, body) in loops:
+            lds = []
+            wrote_frame = False
+            wrote_arg = False
+            for b in body:
+                for i in f.blocks[b]:
+                    m = p1.maddr.get(i.addr) if i.mem >= 0 else None
+                    if not m:
+                        continue
+                    v = m[0]
+                    if v[0] == "fr" and v[1] == fid and lo <= v[2] < hi:
+                        if i.writes_mem_operand():
+                            wrote_frame = True
+                        elif i.reads_mem_operand():
+                            lds.append(i)
+                    if i.writes_mem_operand() and v[0] == "init" and v[1] == arg:
+                        wrote_arg = True
+            if lds and not wrote_frame and wrote_arg:
+                out.append((arg, (lo, hi), lds[0], h))
+    return out
